@@ -152,7 +152,7 @@ var predeclaredConstants = map[string]bool{
 	"RAY_FLAG_CULL_BACK_FACING_TRIANGLES": true, "RAY_FLAG_CULL_FRONT_FACING_TRIANGLES": true,
 	"RAY_FLAG_CULL_OPAQUE": true, "RAY_FLAG_CULL_NON_OPAQUE": true, "RAY_FLAG_SKIP_TRIANGLES": true,
 	"RAY_FLAG_SKIP_PROCEDURAL_PRIMITIVES": true,
-	"HIT_KIND_TRIANGLE_FRONT_FACE": true, "HIT_KIND_TRIANGLE_BACK_FACE": true,
+	"HIT_KIND_TRIANGLE_FRONT_FACE":        true, "HIT_KIND_TRIANGLE_BACK_FACE": true,
 }
 
 func opaqueType(name string) *Type { return &Type{k: kOpaque, name: name, slots: 1} }
